@@ -28,8 +28,9 @@ Fixpoint lookup_merge (tab : list (list Z * Z)) (k : list Z) : Z :=
   | (k', v) :: tab' => if list_eqb Z.eqb k' k then v else lookup_merge tab' k
   end.
 
-(* step = (operation, advance?, expected ids or exception, created pings among the result) *)
-Definition step := (op * bool * res (list Z) * list item)%type.
+(* step = (operation, advance?, expected ids or exception, created pings among the result,
+           track.has_duplicate_timestamps when observed) *)
+Definition step := (op * bool * res (list Z) * list item * option bool)%type.
 
 Record kcase := K {
   k_raws : list raw;
@@ -50,10 +51,11 @@ Section Run.
   Fixpoint run_steps (cur : track) (steps : list step) : bool :=
     match steps with
     | [] => true
-    | (o, adv, expected, news) :: rest =>
+    | (o, adv, expected, news, hd) :: rest =>
         let r := apply_op dist merge cur o in
         ids_eqb r expected &&
         (match o with OConvolve => list_eqb item_eqb (created r) news | _ => true end) &&
+        (match hd with Some b => eqb (has_dup cur) b | None => true end) &&
         run_steps (match r with Ok t' => if adv then t' else cur | Err _ => cur end) rest
     end.
 End Run.
